@@ -19,21 +19,21 @@ def setup(run, cfgs=("std",)):
     return deps, vmon
 
 
-def standard_flow(run, units, deps, vmon, profiles=("debug",), tag="s", nshards=None, extra_head="", timeout=1500, extra_args=()):
+def standard_flow(run, units, deps, vmon, profiles=("debug",), tag="s", nshards=None, extra_head="", timeout=1500, extra_args=(), extern_name="strum"):
     """compile + run + merge; returns samples_by_unit."""
     index = {u.name: u for u in units}
     all_samples = {}
     run.cur_deps = deps.cfg
     for pn in profiles:
         prof = shards.PROFILES[pn]
-        bins = shards.compile_units(run, units, deps, prof, vmon, tag, extra_head=extra_head, nshards=nshards)
+        bins = shards.compile_units(run, units, deps, prof, vmon, tag, extra_head=extra_head, nshards=nshards, extern_name=extern_name)
         run.count("shards/%s" % pn, len(bins))
         args = [str(run.seed), run.tier, pn] + list(extra_args)
         ctr = [0]
 
         def rebuild(us, nsh, prof=prof, ctr=ctr):
             ctr[0] += 1
-            return shards.compile_units(run, us, deps, prof, vmon, "%s_w%d" % (tag, ctr[0]), extra_head=extra_head, nshards=nsh)
+            return shards.compile_units(run, us, deps, prof, vmon, "%s_w%d" % (tag, ctr[0]), extra_head=extra_head, nshards=nsh, extern_name=extern_name)
         s = shards.run_shards(run, bins, index, args=args, rebuild=rebuild)
         for k, v in s.items():
             all_samples.setdefault(k, []).extend(v)
